@@ -88,9 +88,13 @@ def profile_cases(H, rng, kind, per_class, quick):
         cs = base_case(H, rng, kind)
         f, g = rng.choice(flds), rng.choice(flds)
         p = H.gen_vec(rng)
+        others = [h for h in flds if h != f and h not in ("Fmz", "Fwz")]
         pool = [("same", f), ("attach",), ("same", "Frad"), ("same", "Flen"), ("set", g, H.gen_value(rng, g, False)), ("same", g),
+                ("copy", f, rng.choice(others)), ("copy", rng.choice(others), f), ("copy", "Fpl", "Flen") if "Fpl" in flds else ("same", f),
                 ("pol", p), ("pol", p), ("attach",), ("set", f, H.gen_value(rng, f, False)), ("same", f)]
-        k = rng.randint(3, 8)
+        # never copy INTO laser_radius / laser_length: a tiny radius or a huge length makes length // (2 radius) segments
+        pool = [o for o in pool if not (o[0] == "copy" and o[1] in ("Frad", "Flen"))]
+        k = rng.randint(4, min(9, len(pool)))
         cs["ops"] = [pool[i] for i in sorted(rng.sample(range(len(pool)), k))]
         out.append(tag(cs, "same-value/re-attach", mid=[rng.randint(1, k - 1), rng.randint(1, k - 1)]))
 
